@@ -141,6 +141,18 @@ def run_cases(chk: Check, n, with_model=True):
               + f"{len(c['fam'])} " + " ".join(rs(p) for _, p in c["fam"]) for c in live]
     slines = [f"mult {c['proc']} {rs(c['alpha'])} {len(c['fam'])} " + " ".join(rs(p) for _, p in c["fam"])
               for c in live]
+    # Model/Family.lean: the family of _copy_results and the write-back structure, from the nested input
+    def fam_line(c):
+        res = c["results"]
+        exps = list(res.items()) if isinstance(res, dict) else [("-", res)]
+        s_ = c["sel"]
+        selw = "-" if s_ is None else (f"1 {s_}" if isinstance(s_, str) else f"{len(s_)} " + " ".join(sorted(s_) if isinstance(s_, set) else s_))
+        body = " ".join(f"e{j} {len(er)} " + " ".join(f"{nm} {rs((v['pvalue'] if isinstance(v, dict) else v.pvalue))}"
+                                                       for nm, v in er.items()) for j, (_, er) in enumerate(exps))
+        return f"family {selw} {len(exps)} {body}"
+    fout = Driver("DriverMult.lean").ask([fam_line(c) for c in live]) if with_model else [None] * len(live)
+    for c, fo in zip(live, fout):
+        c["model_family"] = fo
     sout = Driver("DriverSpec.lean").ask(slines)
     mout = Driver("DriverMult.lean").ask(mlines) if with_model else [None] * len(live)
     for c, so, mo in zip(live, sout, mout):
@@ -172,6 +184,16 @@ def run_cases(chk: Check, n, with_model=True):
             chk.fail("the adjusted family is not exactly the selected metrics over all experiments",
                      dict(input=inp, got=[str(k) for k in got_keys]))
             continue
+        if c.get("model_family") is not None:
+            fam_part, back_part = c["model_family"].split(" | ")
+            mfam = [tuple(x.split("=")) for x in fam_part.split()[1:]]
+            rfam = [(nm, rs(out[ek][nm]["pvalue"])) for ek, nm in got_keys]
+            rback = " ".join(f"e{j}[" + ",".join(f"{nm}:{k_}" for nm, k_ in
+                                                    zip(er, range(sum(len(e2) for e2 in list(out.values())[:j]), 10**6))) + "]"
+                             for j, er in enumerate(out.values()))
+            if mfam != rfam or back_part.strip() != rback:
+                chk.disagree("family / write-back: Model/Family.lean vs the real adjust_* output",
+                             dict(input=inp, model=c["model_family"], real_family=rfam, real_structure=rback))
         real = [(out[ek][nm]["pvalue_adj"], out[ek][nm]["alpha_adj"], out[ek][nm]["null_rejected"],
                  out[ek][nm]["pvalue"]) for ek, nm in got_keys]
         def mismatch(line, pvals, tol):
